@@ -67,6 +67,12 @@ def generate(wd, repo):
         text = " and ".join(lk for lk, _, _ in c["locks"])
         shim.append("%s real_%s(%s);" % (c["ret"], c["name"], params))
         body = "\tverif_contract_checks++;\n\t__CPROVER_assert(%s, \"CONTRACT: %s called without %s held\");\n" % (cond, c["name"], text)
+        # read-modify-write atomicity on the train state (env/pthread_model.c): the read accessor marks the epoch of
+        # exclusive protection, the write-back compares it
+        if c["name"] == "bidib_state_get_train_state_ref":
+            body += "\tverif_rmw_mark();\n"
+        if c["name"] == "bidib_state_cs_drive":
+            body += "\tverif_rmw_check();\n"
         if c["ret"] == "void":
             body += "\treal_%s(%s);\n" % (c["name"], args)
         else:
